@@ -26,7 +26,7 @@
 (*     by keyword, plus a small state machine  New -> Built -> RoundTripped*)
 (*     -> Dumped.  TLC checks exhaustively (all sizes up to the Max*       *)
 (*     constants) that the model satisfies every predicate of layer 2      *)
-(*     (satisfiable, non-vacuous), that eleven single-fault mutants of the *)
+(*     (satisfiable, non-vacuous), that fifteen single-fault mutants of the*)
 (*     observation are each rejected by the predicate they target (the     *)
 (*     predicates discriminate), and that the property's own scoping is    *)
 (*     forced by geometry (ScopeIsGeometric).  Every enumerated parameter  *)
